@@ -64,6 +64,7 @@ extern "C" void h_shared(void) { hist<Shared<Counted> >(); }
 // with at most p0 preemptions).  p1 = number of threads, p2 = per-thread program: 0 drop, 1 copy a temporary then drop,
 // 2 assign another payload's handle.  Natively the scenario is repeated many times with real threads.
 #include <pthread.h>
+#include <time.h>
 static volatile int g_arrived, g_go;      // native runs only: start barrier so that the threads' operations overlap
 template<class H> struct Conc
 {
@@ -81,10 +82,12 @@ template<class H> struct Conc
 	{
 		vp_sched_budget(vp_param(0));
 		int nt = vp_param(1); prog = vp_param(2);
-		int rounds = vp_symbolic_run() ? 1 : 20000;
+		int rounds = vp_symbolic_run() ? 1 : 1000000;     // natively: as many rounds as fit into about 3 seconds
+		struct timespec t0; clock_gettime(CLOCK_MONOTONIC, &t0);
 		H* h = hp = new H[3]; otherp = new H; H& other = *otherp; emptyp = new H[3];
 		for (int r = 0; r < rounds; r++)
 		{
+			if (r && (r & 63) == 0) { struct timespec t; clock_gettime(CLOCK_MONOTONIC, &t); if (t.tv_sec - t0.tv_sec >= 3) break; }
 			int live0 = Counted::live, d0 = Counted::dtors;
 			{
 				H m = Ops<H>::make(100);
